@@ -25,6 +25,11 @@ one in order of appearance, the moment's reduced basis has an all-zero column an
 contains duplicate columns.  The main generator builds data in which every (event, group) pair occurs
 (mandatory rows, by construction; class 'all_pairs_occur'); sub-check ``parity_missing_pair`` searches
 the region itself with every assertion except distinctness; PROBES holds concrete failing cases.
+
+Finding D18 (found by this module): with a loss moment and constant *float* labels, fit takes the
+"single label value" shortcut and builds ``DummyClassifier(constant=np.float64(c))``, which sklearn
+rejects (InvalidParameterError).  The 'bgl' generator gives the first two mandatory rows different
+label values (class 'labels_not_constant'); the region is probed with the minimal case found.
 """
 
 from __future__ import annotations
@@ -56,6 +61,8 @@ ASSUMPTIONS = [
     "tolerances: 1e-9 best response and L1 norm, 1e-10 recorded values and selection",
     "known finding D11 (duplicate multiplier vectors when a conditioned label class is missing from a group) is excluded "
     "from 'parity' by construction, probed, and searched without the distinctness assertion in 'parity_missing_pair'",
+    "finding D18 (constant float labels with BoundedGroupLoss raise InvalidParameterError) is excluded from 'bgl' by "
+    "construction and probed",
 ]
 
 TOL_BR = 1e-9
@@ -404,12 +411,12 @@ _D11_PROBES = [
 PROBES = {"D11": [("parity", c) for c in _D11_PROBES], "D18": [("bgl", _D18_PROBE)]}
 
 SUBS = [
-    Sub("parity", check_parity, strategy=_parity_cases, quick=192, thorough=4000, shards=16, shrink_quick=False,
+    Sub("parity", check_parity, strategy=_parity_cases, quick=192, thorough=4000, shards=12, shrink_quick=False,
         floors={"nt": 0.12, "all_pairs_occur": 1.0, "predictors>=3": 0.25, "ratio<1": 0.1, "grid>=20": 0.2,
                 "m:DemographicParity": 0.08, "m:TruePositiveRateParity": 0.08, "m:FalsePositiveRateParity": 0.08,
                 "m:EqualizedOdds": 0.08, "m:ErrorRateParity": 0.08, "groups4": 0.1, "selected_not_min_error": 0.1}),
-    Sub("parity_missing_pair", check_parity_missing, strategy=_missing_cases, quick=40, thorough=800, shards=8,
+    Sub("parity_missing_pair", check_parity_missing, strategy=_missing_cases, quick=40, thorough=800, shards=4,
         shrink_quick=False, floors={"missing_pair": 1.0, "predictors>=3": 0.15}),
-    Sub("bgl", check_bgl, strategy=_bgl_cases, quick=60, thorough=1200, shards=12, shrink_quick=False,
+    Sub("bgl", check_bgl, strategy=_bgl_cases, quick=60, thorough=1200, shards=6, shrink_quick=False,
         floors={"bgl": 1.0, "labels_not_constant": 1.0, "nt": 0.25, "predictors>=3": 0.4, "groups3": 0.1, "groups4": 0.1}),
 ]
